@@ -420,27 +420,45 @@ Proof.
   apply no_put_bind; [exact IHk|]. intros r. constructor.
 Qed.
 
-Lemma remaining_links_np g cs cur names : forall acc, no_put (remaining_links c g cs cur names acc).
+Lemma remaining_links_np g cs cur mrg before names : forall acc, no_put (remaining_links c g cs cur mrg before names acc).
 Proof.
   induction names as [|n rest IH]; intros acc; cbn [remaining_links]; [constructor|].
   assert (K : forall v, no_put (bind (load_tree c v) (fun l =>
               match l with
-              | LTree _ => remaining_links c g cs cur rest (match v_link v with Some x => x :: acc | None => acc end)
+              | LTree _ => remaining_links c g cs cur mrg before rest (match v_link v with Some x => x :: acc | None => acc end)
               | LGone => Fail E_LOADTREE
               | LErr e => Fail e
               end))).
   { intros v. apply no_put_bind; [apply no_mut_no_put, load_tree_nm|]. intros [t| |e]; try constructor. apply IH. }
+  assert (M : no_put (if mem n mrg && negb (mem n cs) then
+                        bind (load_root_any [PMerged] n) (fun ro =>
+                          match ro with
+                          | Some v => if (match v_created v with Some cr => cr <? before | None => false end)
+                                      then remaining_links c g cs cur mrg before rest acc
+                                      else bind (load_tree c v) (fun l =>
+                                             match l with
+                                             | LTree _ => remaining_links c g cs cur mrg before rest (match v_link v with Some x => x :: acc | None => acc end)
+                                             | LGone => Fail E_LOADTREE
+                                             | LErr e => Fail e
+                                             end)
+                          | None => remaining_links c g cs cur mrg before rest acc
+                          end)
+                      else remaining_links c g cs cur mrg before rest acc)).
+  { destruct (mem n mrg && negb (mem n cs)); [|apply IH].
+    apply no_put_bind; [apply no_mut_no_put, load_root_any_nm|]. intros [v|]; [|apply IH].
+    destruct (match v_created v with Some cr => cr <? before | None => false end); [apply IH|apply K]. }
   destruct (match find (fun kv => fst kv =? n) g with Some (_, v) => if mem n cs then None else Some v | None => None end) as [v|].
   - apply K.
-  - destruct (mem n cur); [|apply IH].
-    apply no_put_bind; [apply no_mut_no_put, load_root_any_nm|]. intros [v|]; [apply K|apply IH].
+  - destruct (mem n cur); [|exact M].
+    apply no_put_bind; [apply no_mut_no_put, load_root_any_nm|]. intros [v|]; [apply K|exact M].
 Qed.
 
-Lemma keep_reachable_np h g cs blocks : no_put (keep_reachable c h g cs blocks).
+Lemma keep_reachable_np h g cs before blocks : no_put (keep_reachable c h g cs before blocks).
 Proof.
   unfold keep_reachable. destruct blocks; [constructor|].
-  constructor; [reflexivity|]. intros x. destruct x; try constructor.
-  apply no_put_bind; [apply remaining_links_np|]. intros keep. constructor.
+  apply np_do; [reflexivity|]. intros x. destruct x as [|cur| | | |]; try apply np_fail.
+  apply np_do; [reflexivity|]. intros x. destruct x as [|mrg| | | |]; try apply np_fail.
+  apply no_put_bind; [apply remaining_links_np|]. intros keep. apply np_ret.
 Qed.
 
 Theorem delete_historic_np h before : no_put (delete_historic c h before).
